@@ -537,10 +537,52 @@ def run(ck):
     ])
 
 
-def replay(path):
+def replay_case(path, binname, drv):
+    """Re-executes the stored case on the implementation and on the model and prints both."""
+    import tempfile
     d = json.load(open(path))
     rep = d.get("replay") or {}
-    print(json.dumps({k: rep.get(k) for k in ("sql", "impl", "model", "tags")}, indent=1))
+    print("# %s: %s" % (d.get("sig"), d.get("what")))
     if rep.get("sql_script"):
         print(rep["sql_script"])
+    line = rep.get("case")
+    if not line:
+        print(json.dumps(rep, indent=1, default=str)[:4000])
+        return 0
+
+    class W:
+        pass
+    w = W()
+    os.makedirs(vlib.WORK, exist_ok=True)
+    w.work = tempfile.mkdtemp(prefix="replay-", dir=vlib.WORK)
+    try:
+        res = run_cases(w, binname, drv, [line], "replay")[0]
+        qs = case_queries(res["case"])
+        results = field(res["obs"], "results") or []
+        answers = [x for x in res["ans"][2:] if isinstance(x, list) and x[0] == "ans"]
+        print("layout impl : %s" % field(res["obs"], "lay"))
+        print("layout model: %s" % field(res["ans"], "lay"))
+        for q, r_, a in zip(qs, results, answers):
+            if rep.get("qid") is not None and q["qid"] != rep.get("qid"):
+                continue
+            print("-- q%d %s: %s" % (q["qid"], q["kind"], q["sql"]))
+            print("   impl  optimizer on : %s" % field(r_, "on")[0])
+            print("   impl  optimizer off: %s" % field(r_, "off")[0])
+            if a[1] == "ok":
+                print("   model exec (optimized plan): %s" % field(a, "exec")[0])
+                print("   model spec                 : %s" % field(a, "spec")[0])
+                print("   model tags                 : %s" % (field(a, "tags") or []))
+        scans = field(res["obs"], "scans") or []
+        scans_m = [x for x in res["ans"][2:] if isinstance(x, list) and x[0] == "sc"]
+        for sreq, si, sm in zip(field(res["case"], "scans") or [], scans, scans_m):
+            if rep.get("scan") is not None and sreq != rep.get("scan"):
+                continue
+            print("-- storage scan %s\n   impl : %s\n   model: %s" % (sreq, si, sm))
+    finally:
+        import shutil
+        shutil.rmtree(w.work, ignore_errors=True)
     return 0
+
+
+def replay(path):
+    return replay_case(path, "c12", "drv_c12")
